@@ -8,11 +8,7 @@
 //   spec syntax (one token):  E | A | M<digits> | N | K<cm>        (see lean/XV/Driver/ContentModel.lean)
 //   V <spec> <digits|->          -> "<route> ok" | "<route> fail <i>" | "<route> exc <name>"
 //   A <spec> <nsyms> <maxlen>    -> "<route> <one char per sequence in DFS pre-order>"
-// Document tier.
-//   D  <hex utf-8 document>      -> XercesDOMParser, validation always:
-//                                   "doc v=<#error() callbacks> f=<#fatalError()> exc=<exception|-> attrs=<per element, sorted>"
-//   DN <hex>                     -> same with validation off (attribute defaulting must not depend on validation)
-//   DV <hex>                     -> as D, plus the first error messages (replay / diagnosis)
+// Document tier: see runAllModes below (M / MV lines).
 #include "hx_common.hpp"
 #include <algorithm>
 #include <map>
@@ -23,6 +19,11 @@
 #include <xercesc/framework/MemBufInputSource.hpp>
 #include <xercesc/framework/XMLValidityCodes.hpp>
 #include <xercesc/parsers/XercesDOMParser.hpp>
+#include <xercesc/parsers/SAXParser.hpp>
+#include <xercesc/sax/HandlerBase.hpp>
+#include <xercesc/sax/EntityResolver.hpp>
+#include <xercesc/sax/AttributeList.hpp>
+#include <xercesc/util/XMLUni.hpp>
 #include <xercesc/sax/ErrorHandler.hpp>
 #include <xercesc/sax/SAXParseException.hpp>
 #include <xercesc/dom/DOM.hpp>
@@ -165,6 +166,12 @@ static void enumDfs(DTDValidator* val, DTDElementDecl& decl, unsigned nsyms, uns
 
 // ------------------------------------------------------------------------------------------------
 // document tier
+//   M  <hex document> <hex external subset | ->     all 16 modes: {dom,sax} x {ig,dg} x {ns0,ns1} x {v1,v0}
+//   MV <hex document> <hex external subset | ->     same, with the first messages of every mode (replay)
+//   -> "<mode> v=<#error()> f=<#fatalError()> exc=<name|-> dump=<elements> ## <mode> ..."
+//   dump: per element in document order  <name,attr=value[!]...|n>   (! = supplied by default, DOM only;
+//         n = number of non-white-space characters directly in the element, entity references expanded)
+//   The external subset is the system id "ext.dtd", served from memory by an entity resolver.
 struct Counter : public ErrorHandler {
     int warn = 0, err = 0, fatal = 0;
     std::vector<std::string> msgs;
@@ -174,7 +181,27 @@ struct Counter : public ErrorHandler {
     void resetErrors() override {}
 };
 
-static void dumpAttrs(DOMNode* n, std::string& out) {
+struct MemResolver : public EntityResolver {
+    const std::vector<XMLByte>* ext = 0;
+    int asked = 0;
+    InputSource* resolveEntity(const XMLCh* const, const XMLCh* const systemId) override {
+        std::string sid = hx::narrow(systemId);
+        if (ext && sid.size() >= 7 && sid.compare(sid.size() - 7, 7, "ext.dtd") == 0) {
+            asked++;
+            static const XMLByte none[1] = { 0 };
+            return new MemBufInputSource(ext->empty() ? none : ext->data(), ext->size(), systemId, false);
+        }
+        return 0;
+    }
+};
+
+static unsigned nonWs(const XMLCh* s) {
+    unsigned n = 0;
+    for (; s && *s; ++s) if (*s != 0x20 && *s != 0x9 && *s != 0xA && *s != 0xD) n++;
+    return n;
+}
+
+static void dumpDom(DOMNode* n, std::string& out) {
     for (; n; n = n->getNextSibling()) {
         if (n->getNodeType() != DOMNode::ELEMENT_NODE) continue;
         out += "<" + hx::narrow(n->getNodeName());
@@ -186,34 +213,113 @@ static void dumpAttrs(DOMNode* n, std::string& out) {
         }
         std::sort(as.begin(), as.end());
         for (auto& s : as) out += "," + s;
-        out += ">";
-        dumpAttrs(n->getFirstChild(), out);
+        unsigned txt = 0;
+        for (DOMNode* c = n->getFirstChild(); c; c = c->getNextSibling())
+            if (c->getNodeType() == DOMNode::TEXT_NODE || c->getNodeType() == DOMNode::CDATA_SECTION_NODE) txt += nonWs(c->getNodeValue());
+        out += "|" + std::to_string(txt) + ">";
+        dumpDom(n->getFirstChild(), out);
     }
 }
 
-static std::string runDoc(const std::vector<uint32_t>& bytes, bool validate, bool verbose) {
-    std::vector<XMLByte> buf(bytes.begin(), bytes.end());
-    XercesDOMParser p;
+struct SaxDump : public HandlerBase {
+    std::vector<std::string> recs;          // "<name,attrs"
+    std::vector<unsigned> txt;
+    std::vector<size_t> stack;
+    Counter* c;
+    explicit SaxDump(Counter* cc) : c(cc) {}
+    void startElement(const XMLCh* const name, AttributeList& attrs) override {
+        std::string r = "<" + hx::narrow(name);
+        std::vector<std::string> as;
+        for (XMLSize_t i = 0; i < attrs.getLength(); i++) as.push_back(hx::narrow(attrs.getName(i)) + "=" + hx::narrow(attrs.getValue(i)));
+        std::sort(as.begin(), as.end());
+        for (auto& s : as) r += "," + s;
+        stack.push_back(recs.size()); recs.push_back(r); txt.push_back(0);
+    }
+    void endElement(const XMLCh* const) override { if (!stack.empty()) stack.pop_back(); }
+    void characters(const XMLCh* const chars, const XMLSize_t length) override {
+        if (stack.empty()) return;
+        for (XMLSize_t i = 0; i < length; i++) { XMLCh ch = chars[i]; if (ch != 0x20 && ch != 0x9 && ch != 0xA && ch != 0xD) txt[stack.back()]++; }
+    }
+    void warning(const SAXParseException& e) override { c->warning(e); }
+    void error(const SAXParseException& e) override { c->error(e); }
+    void fatalError(const SAXParseException& e) override { c->fatalError(e); }
+    std::string dump() const { std::string o; for (size_t i = 0; i < recs.size(); i++) o += recs[i] + "|" + std::to_string(txt[i]) + ">"; return o; }
+};
+
+// The 8 parser objects ({dom,sax} x {ig,dg} x {ns0,ns1}) are created once and reused for every document, as an
+// application would; validation is switched per parse.
+struct ParserSet {
+    XercesDOMParser* dom[2][2];
+    SAXParser* sax[2][2];
+    ParserSet() {
+        for (int dg = 0; dg < 2; dg++) for (int ns = 0; ns < 2; ns++) {
+            const XMLCh* scanner = dg ? XMLUni::fgDGXMLScanner : XMLUni::fgIGXMLScanner;
+            XercesDOMParser* d = new XercesDOMParser();
+            d->useScanner(scanner); d->setDoNamespaces(ns); d->setDoSchema(false); d->setLoadExternalDTD(true);
+            d->setCreateEntityReferenceNodes(false);
+            dom[dg][ns] = d;
+            SAXParser* s = new SAXParser();
+            s->useScanner(scanner); s->setDoNamespaces(ns); s->setDoSchema(false); s->setLoadExternalDTD(true);
+            sax[dg][ns] = s;
+        }
+    }
+    ~ParserSet() { for (int dg = 0; dg < 2; dg++) for (int ns = 0; ns < 2; ns++) { delete dom[dg][ns]; delete sax[dg][ns]; } }
+};
+static ParserSet* gParsers = 0;
+
+static std::string runMode(const std::vector<XMLByte>& doc, const std::vector<XMLByte>* ext, bool sax, bool dg, bool ns, bool validate, bool verbose) {
     Counter c;
-    p.setErrorHandler(&c);
-    p.setValidationScheme(validate ? XercesDOMParser::Val_Always : XercesDOMParser::Val_Never);
-    p.setDoNamespaces(false);
-    p.setDoSchema(false);
-    p.setLoadExternalDTD(false);
-    p.setCreateEntityReferenceNodes(false);
-    std::string exc = "-";
+    MemResolver res; res.ext = ext;
+    std::string exc = "-", dump;
     try {
-        MemBufInputSource src(buf.data(), buf.size(), "doc", false);
-        p.parse(src);
-    } catch (const OutOfMemoryException&) { exc = "OutOfMemory";
-    } catch (const XMLException& e) { exc = "XMLException:" + hx::narrow(e.getType());
-    } catch (const DOMException& e) { exc = "DOMException:" + std::to_string((int)e.code);
-    } catch (const SAXException&) { exc = "SAXException";
-    } catch (...) { exc = "FOREIGN-EXCEPTION"; }
-    std::string attrs;
-    if (c.fatal == 0 && exc == "-" && p.getDocument()) dumpAttrs(p.getDocument()->getFirstChild(), attrs);
-    std::string out = "doc v=" + std::to_string(c.err) + " f=" + std::to_string(c.fatal) + " exc=" + exc + " attrs=" + (attrs.empty() ? "-" : attrs);
+        MemBufInputSource src(doc.data(), doc.size(), "doc", false);
+        if (sax) {
+            SAXParser& p = *gParsers->sax[dg][ns];
+            SaxDump h(&c);
+            p.setDocumentHandler(&h);
+            p.setErrorHandler(&h);
+            p.setEntityResolver(&res);
+            p.setValidationScheme(validate ? SAXParser::Val_Always : SAXParser::Val_Never);
+            try { p.parse(src); }
+            catch (const OutOfMemoryException&) { exc = "OutOfMemory"; }
+            catch (const XMLException& e) { exc = "XMLException:" + hx::narrow(e.getType()); }
+            catch (const SAXException&) { exc = "SAXException"; }
+            catch (...) { exc = "FOREIGN-EXCEPTION"; }
+            if (c.fatal == 0 && exc == "-") dump = h.dump();
+            p.setDocumentHandler(0); p.setErrorHandler(0); p.setEntityResolver(0);
+        } else {
+            XercesDOMParser& p = *gParsers->dom[dg][ns];
+            p.setErrorHandler(&c);
+            p.setEntityResolver(&res);
+            p.setValidationScheme(validate ? XercesDOMParser::Val_Always : XercesDOMParser::Val_Never);
+            try { p.parse(src); }
+            catch (const OutOfMemoryException&) { exc = "OutOfMemory"; }
+            catch (const XMLException& e) { exc = "XMLException:" + hx::narrow(e.getType()); }
+            catch (const DOMException& e) { exc = "DOMException:" + std::to_string((int)e.code); }
+            catch (const SAXException&) { exc = "SAXException"; }
+            catch (...) { exc = "FOREIGN-EXCEPTION"; }
+            if (c.fatal == 0 && exc == "-" && p.getDocument()) dumpDom(p.getDocument()->getFirstChild(), dump);
+            p.setErrorHandler(0); p.setEntityResolver(0);
+            p.resetDocumentPool();
+        }
+    } catch (...) { exc = "FOREIGN-EXCEPTION-OUTER"; }
+    std::string out = std::string(sax ? "sax" : "dom") + (dg ? "-dg" : "-ig") + (ns ? "-ns1" : "-ns0") + (validate ? "-v1" : "-v0")
+        + " v=" + std::to_string(c.err) + " f=" + std::to_string(c.fatal) + " exc=" + exc + " dump=" + (dump.empty() ? "-" : dump);
     if (verbose) for (auto& m : c.msgs) out += " | " + m;
+    return out;
+}
+
+static std::string runAllModes(const std::vector<uint32_t>& d, const std::string& extHex, bool verbose) {
+    if (!gParsers) gParsers = new ParserSet();
+    std::vector<XMLByte> doc(d.begin(), d.end());
+    std::vector<XMLByte> ext;
+    bool haveExt = extHex != "-";
+    if (haveExt && extHex != "0") { auto e = hx::parseHexList(extHex); ext.assign(e.begin(), e.end()); }
+    std::string out;
+    for (int sax = 0; sax < 2; sax++) for (int dg = 0; dg < 2; dg++) for (int ns = 0; ns < 2; ns++) for (int v = 1; v >= 0; v--) {
+        if (!out.empty()) out += " ## ";
+        out += runMode(doc, haveExt ? &ext : 0, sax, dg, ns, v, verbose);
+    }
     return out;
 }
 
@@ -249,13 +355,13 @@ int main() {
                     enumDfs(val, decl, nsyms, maxlen, pre, out);
                     puts((route + " " + out).c_str());
                 }
-            } else if ((f[0] == "D" || f[0] == "DN" || f[0] == "DV") && f.size() == 2) {
-                // D: validating parse; DN: non-validating parse (for attribute defaulting); DV: verbose
-                puts(runDoc(hx::parseHexList(f[1]), f[0] != "DN", f[0] == "DV").c_str());
+            } else if ((f[0] == "M" || f[0] == "MV") && f.size() == 3) {
+                puts(runAllModes(hx::parseHexList(f[1]), f[2], f[0] == "MV").c_str());
             } else puts("bad-op");
             fflush(stdout);
         }
         for (unsigned k = 0; k < 10; k++) delete gPool[k];
+        delete gParsers; gParsers = 0;
     }
     XMLPlatformUtils::Terminate();
     return 0;
